@@ -230,3 +230,83 @@ func (l *Loop) ExitIsPanic(e Edge) bool {
 	}
 	return onlyPanic
 }
+
+// FullRange reports whether an index loop visits every index of a slice: ascending from 0 while i < len, the compiler's
+// range form (from -1, i+1 < len), or descending from len-1 while i >= 0.  isLen recognises len(<the slice>).  The
+// second result says what is wrong.
+func (l *Loop) FullRange(isLen func(ssa.Value) bool) (bool, string) {
+	dir, phi := l.InductionDir()
+	if phi == nil {
+		return false, "no induction variable"
+	}
+	var init ssa.Value
+	var next *ssa.BinOp
+	for i, e := range phi.Edges {
+		if l.Body[l.Header.Preds[i]] {
+			next, _ = e.(*ssa.BinOp)
+		} else {
+			init = e
+		}
+	}
+	if next == nil || init == nil {
+		return false, "induction variable not of the form i ± 1"
+	}
+	stepC, _ := next.Y.(*ssa.Const)
+	if stepC == nil {
+		stepC, _ = next.X.(*ssa.Const)
+	}
+	if stepC == nil || stepC.Value == nil || (stepC.Value.ExactString() != "1" && stepC.Value.ExactString() != "-1") {
+		return false, "step is not 1"
+	}
+	ifi, ok := l.Header.Instrs[len(l.Header.Instrs)-1].(*ssa.If)
+	if !ok {
+		return false, "loop head has no bound test"
+	}
+	contIdx := 0
+	if !l.Body[l.Header.Succs[0]] || l.Header.Succs[0] == l.Header {
+		contIdx = 1
+	}
+	isConst := func(s string) func(ssa.Value) bool {
+		return func(v ssa.Value) bool {
+			k, ok := SkipConv(v).(*ssa.Const)
+			return ok && k.Value != nil && k.Value.ExactString() == s
+		}
+	}
+	rel := func(isA, isB func(ssa.Value) bool) (int, bool) {
+		onT, onF, ok := CondRelation(ifi.Cond, isA, isB)
+		if !ok {
+			return 0, false
+		}
+		if contIdx == 0 {
+			return onT, true
+		}
+		return onF, true
+	}
+	isPhi := func(v ssa.Value) bool { return SkipConv(v) == ssa.Value(phi) }
+	isNext := func(v ssa.Value) bool { return SkipConv(v) == ssa.Value(next) }
+	switch {
+	case dir > 0 && isConst("0")(init):
+		if r, ok := rel(isPhi, isLen); ok && r == OrdLT {
+			return true, ""
+		}
+		return false, "ascending loop does not continue exactly while i < len"
+	case dir > 0 && isConst("-1")(init):
+		if r, ok := rel(isNext, isLen); ok && r == OrdLT {
+			return true, ""
+		}
+		return false, "range loop does not continue exactly while i+1 < len"
+	case dir < 0:
+		sub, ok := SkipConv(init).(*ssa.BinOp)
+		if !ok || sub.Op != token.SUB || !isLen(sub.X) || !isConst("1")(sub.Y) {
+			return false, "descending loop does not start at len-1"
+		}
+		if r, ok := rel(isPhi, isConst("0")); ok && r == OrdGT|OrdEQ {
+			return true, ""
+		}
+		if r, ok := rel(isPhi, isConst("-1")); ok && r == OrdGT {
+			return true, ""
+		}
+		return false, "descending loop does not continue exactly while i >= 0 (the first element is left out)"
+	}
+	return false, "loop does not start at the first or last index"
+}
